@@ -947,6 +947,9 @@ void deindent_block(mmd_engine * e, token * block) {
 
 	token * t = block->child;
 
+	// Metadata belongs to the start of the document, never to a nested block
+	e->allow_meta = false;
+
 	while (t != NULL) {
 		deindent_line(t);
 		mmd_assign_line_type(e, t);
@@ -1031,6 +1034,9 @@ void strip_quote_markers_from_block(mmd_engine * e, token * block) {
 	}
 
 	token * t = block->child;
+
+	// Metadata belongs to the start of the document, never to a nested block
+	e->allow_meta = false;
 
 	while (t != NULL) {
 		strip_quote_markers_from_line(t, e->dstr->str);
